@@ -21,7 +21,8 @@
             let partitions: Vec<_> = parts.iter().map(|s| device.create_partition(*s).unwrap()).collect();
             let io_engine = PsyncIoEngineConfig::new().boxed().build(IoEngineBuildContext { spawner: Spawner::current() }).await.unwrap();
             let log = TombstoneLog::open(partitions.clone(), io_engine.clone(), &mut vec![]).await.unwrap();
-            let ts: Vec<Tombstone> = (0..n).map(|i| Tombstone { hash: i + 1, sequence: i + 1 }).collect();
+            // hashes run AGAINST the sequences, so that 'newest' cannot be confused with 'largest hash'
+            let ts: Vec<Tombstone> = (0..n).map(|i| Tombstone { hash: 1_000_000 - i, sequence: i + 1 }).collect();
             log.append(ts.iter()).await.unwrap();
             let tail_before = log.inner.lock().await.slot;
             drop(log);
@@ -29,18 +30,18 @@
             let log = TombstoneLog::open(partitions.clone(), io_engine.clone(), &mut rec).await.unwrap();
             let tail_after = log.inner.lock().await.slot;
             if tail_after != tail_before {
-                found.push(format!("WITNESS page_scan_recovers_every_tombstone_with_global_offset_of_newest :: {n} appends on partitions {parts:?}, reopen: tail slot {tail_after}, expected {tail_before}"));
+                found.push(format!("WITNESS tail_follows_the_tombstone_with_the_highest_sequence :: {n} appends (hash = 1000000 - i, sequence = i + 1) on partitions {parts:?}, reopen: tail slot {tail_after}, expected {tail_before}"));
             }
             if rec.len() as u64 != n {
                 found.push(format!("WITNESS page_scan_recovers_every_tombstone_with_global_offset_of_newest :: {n} appends, reopen recovered {} tombstones", rec.len()));
             }
             // one more delete after the restart must not overwrite a live tombstone
-            log.append([Tombstone { hash: 9_000_000, sequence: n + 1 }].iter()).await.unwrap();
+            log.append([Tombstone { hash: 5, sequence: n + 1 }].iter()).await.unwrap();
             drop(log);
             let mut rec2 = vec![];
             let _ = TombstoneLog::open(partitions.clone(), io_engine.clone(), &mut rec2).await.unwrap();
             for i in 0..n {
-                if !rec2.iter().any(|t| t.hash == i + 1 && t.sequence == i + 1) {
+                if !rec2.iter().any(|t| t.hash == 1_000_000 - i && t.sequence == i + 1) {
                     found.push(format!("WITNESS distinct_slots_in_a_window_have_distinct_addresses :: {n} appends on {parts:?}, reopen, 1 append, reopen: tombstone #{} lost", i + 1));
                     break;
                 }
